@@ -321,7 +321,7 @@ class GeoBoxBase:
             tx, ty = map(int, pix_bbox.bbox[:2])
             roi = numpy.s_[ty : ty + ny, tx : tx + nx]
 
-        if isinstance(roi, int):
+        if isinstance(roi, (int, numpy.integer)):
             # keep the int: roi_normalise maps negative indices to ``n + i``,
             # ``slice(-1, 0)`` would otherwise select a negative number of rows
             roi = (roi, slice(None, None))
@@ -331,6 +331,9 @@ class GeoBoxBase:
 
         if len(roi) > 2:
             raise ValueError("Expect 2d slice")
+
+        # numpy integers (e.g. an index taken from an array) index like python ints
+        roi = tuple(int(s) if isinstance(s, numpy.integer) else s for s in roi)
 
         roi = roi_normalise(roi, self._shape.shape)
 
